@@ -166,6 +166,28 @@ theorem facet_only_own_key (idx : List Nat) (missing k : Val) (rows : List Row) 
 example : fieldValue [0, 1] .none [.num .int (.fin 1)] = .seq false [.num .int (.fin 1), .none] := by
   simp [fieldValue, cellOr, getCell]
 
+/-- `search` and `searchcomplement` partition the rows, whatever the pattern matches and however ragged the table is:
+    each is a sublist (order kept), together they are a permutation of the input -/
+theorem search_partition (idx : Option (List Nat)) (rows : List (Row × List Bool)) :
+    (searchRows idx false rows ++ searchRows idx true rows).Perm (rows.map (·.1)) ∧
+    List.Sublist (searchRows idx false rows) (rows.map (·.1)) ∧
+    List.Sublist (searchRows idx true rows) (rows.map (·.1)) := by
+  unfold searchRows
+  have h1 : rows.filter (fun rm => searchMatch idx rm.1 rm.2 != false) = rows.filter (fun rm => searchMatch idx rm.1 rm.2) := by
+    congr 1; funext rm; cases searchMatch idx rm.1 rm.2 <;> rfl
+  have h2 : rows.filter (fun rm => searchMatch idx rm.1 rm.2 != true) = rows.filter (fun rm => !searchMatch idx rm.1 rm.2) := by
+    congr 1; funext rm; cases searchMatch idx rm.1 rm.2 <;> rfl
+  rw [h1, h2]
+  refine ⟨?_, (List.filter_sublist).map _, (List.filter_sublist).map _⟩
+  rw [← List.map_append]
+  exact (List.filter_append_perm _ rows).map _
+
+/-- a row too short to have the field searched never matches: it belongs to the complement -/
+theorem search_short_row_in_complement (i : Nat) (r : Row) (m : List Bool) (h : r.length ≤ i) :
+    searchMatch (some [i]) r m = false := by
+  have : ¬ i < r.length := by omega
+  simp [searchMatch, this]
+
 example : (Pred.lt (.str [97])).eval (.num .int (.fin 5)) = true ∧ (Pred.lt (.num .int (.fin 5))).eval .none = true ∧
     Val.pyEq (fieldValue [1] (.str [63]) [.none]) (.str [63]) = true := by decide
 
